@@ -152,6 +152,13 @@ impl Cfg {
             2 => Mode::Raw,
             _ => Mode::Requests,
         };
+        // development aid: force one usage mode
+        match std::env::var("VERIF_MODE").as_deref() {
+            Ok("raw") => c.mode = Mode::Raw,
+            Ok("execute") => c.mode = Mode::Execute,
+            Ok("requests") => c.mode = Mode::Requests,
+            _ => {}
+        }
         c.model = if r.chance(1, 2) { Model::Coupled } else { Model::Independent };
         c.cap = *r.pick(&[1, 1, 2, 3, 8]);
         c.limit = *r.pick(&[None, None, Some(0), Some(1), Some(1), Some(2), Some(3), Some(8)]);
